@@ -1,7 +1,7 @@
 """C05 - SM4 block encryption is the GM/T 0002 permutation and decryption is its inverse (sm4/sm4.go)."""
 ID = "C05"
 PROPS = "Props/C05.v"
-GEN = ["sm4tables"]
+GEN = ["sm4tables", "sm4consts"]
 LEGS = [{"driver": "c05", "runner": ("sm4", "Extract/ExtractSM4.v", "Sm4_model")}]
 
 TECHNIQUE = ("Coq proof that a function-by-function model of sm4.go over the tables regenerated from the source equals a "
@@ -22,7 +22,7 @@ LEVEL_NOTE = ("Trusted: Coq kernel incl. vm_compute, the translator reading the 
 TRUSTED_BASE = [
     "specification coq/SM4/SM4Spec.v transcribed by hand from GM/T 0002-2012; validated by Annex A.1 (Example, vm_compute) and A.2 (1,000,000-fold, thorough tier, extracted)",
     "model coq/SM4/SM4Model.v written by hand from sm4/sm4.go; tied by the correspondence run of this check",
-    "translator harness/cmd/gen target sm4tables (fk, ck, sbox, sbox0..3, BlockSize) -> coq/Gen/SM4Tables.v",
+    "translator harness/cmd/gen targets sm4tables (fk, ck, sbox, sbox0..3, BlockSize) -> coq/Gen/SM4Tables.v and sm4consts (integer literals of every function, package-level variables) -> coq/Gen/SM4Consts.v",
     "extraction: ExtrOcamlBasic only; nat/positive/N stay inductive; OCaml 4.13.1 + dune; runner ocaml/sm4/main.ml and ocaml/conv.ml.tmpl",
     "Go driver harness/cmd/c05; independent oracle: the pure-python SM4 in checks/c05.py",
 ]
